@@ -343,7 +343,19 @@ func (k *KDC) preauthHint(realm *Realm, p *Principal, policy string, et int32, k
 		params = make([]byte, 4)
 		binary.BigEndian.PutUint32(params, it)
 	}
+	other := int32(17)
+	if et == 17 {
+		other = 18
+	}
+	otherSalt := "salt of the overridden hint"
 	switch policy {
+	case "info2,info-other-etype":
+		// both hints: ETYPE-INFO2 overrides ETYPE-INFO (RFC 4120 5.2.7.5) whatever their order; the overridden one names another etype
+		return []kmsg.PA{{Type: 19, Value: kmsg.EtypeInfo2DER([]kmsg.EtypeInfo2Entry{{Etype: et, Salt: &salt, Params: params}})},
+			{Type: 11, Value: kmsg.EtypeInfoDER([]kmsg.EtypeInfoEntry{{Etype: other, Salt: []byte(otherSalt)}})}, {Type: 3, Value: []byte(otherSalt)}, {Type: 2, Value: []byte{}}}
+	case "info-other-etype,info2":
+		return []kmsg.PA{{Type: 2, Value: []byte{}}, {Type: 3, Value: []byte(otherSalt)}, {Type: 11, Value: kmsg.EtypeInfoDER([]kmsg.EtypeInfoEntry{{Etype: other, Salt: []byte(otherSalt)}})},
+			{Type: 19, Value: kmsg.EtypeInfo2DER([]kmsg.EtypeInfo2Entry{{Etype: et, Salt: &salt, Params: params}})}}
 	case "info+pwsalt":
 		// old style: ETYPE-INFO and PW-SALT (no s2k parameters can be conveyed: only usable with default iterations)
 		return []kmsg.PA{{Type: 11, Value: kmsg.EtypeInfoDER([]kmsg.EtypeInfoEntry{{Etype: et, Salt: []byte(salt)}})}, {Type: 3, Value: []byte(salt)}, {Type: 2, Value: []byte{}}}
